@@ -141,6 +141,8 @@ def templates(pyver, tier, rng=None):
     add("closure-cell-before-free", "def deco(z_arg):\n    def wrapper(fn):\n        def inner(*a):\n            return fn(z_arg, *a)\n        return inner\n    return wrapper\n")
     add("closure-many", "def o(a, b, c):\n    def m(d, e):\n        x = a\n        def i():\n            return (c, e, x, b, d)\n        y = b\n        if 0:\n            q = 1\n            def dead(): return q\n        return i, y\n    return m\n")
     add("closure-class", "def o(a):\n    class K:\n        z = a\n        def m(self):\n            return (__class__, a, super().m())\n    return K\n")
+    add("closure-class-cell-and-free", "class A:\n    def f(self):\n        class B:\n            defined_in = __class__\n            def g(self):\n                return __class__\n            def h(self):\n                return super().h()\n        return B\n")
+    add("closure-classderef", "def o(x):\n    class K:\n        y = x\n        def m(self):\n            return x, __class__\n    return K\n")
     add("closure-kwonly-cell", "def o(*, k, **kw):\n    def i(x, *, y=k):\n        return (k, kw, x, y)\n    return i\n")
     add("closure-nonlocal-dead", "def o():\n    n = 0\n    t = 1\n    def i():\n        nonlocal n\n        n += t\n        return\n        def dead(): return n, t\n    return i\n")
     add("closure-unused-free-order", "def o(b, a):\n    def m():\n        v = b\n        w = 2\n        def i(): return (w, a)\n        return i, v\n    return m\n")
